@@ -571,6 +571,9 @@ MUTANTS = [
     M("I1-3-not-reversed", ["C01", "C07"], (MH, "RANKS.iter().zip(card_len_each_rank.iter().rev())", "RANKS.iter().zip(card_len_each_rank.iter())"), base="I1-3"),
     M("I1-3-hand-len-6", ["C01", "C07"], (MH, "const HAND_LEN: u8 = 7;", "const HAND_LEN: u8 = 6;"), base="I1-3"),
     M("I1-3-skip-one", ["C01", "C07"], (MH, "RANKS.iter().zip(card_len_each_rank.iter().rev())", "RANKS.iter().zip(card_len_each_rank.iter().rev().skip(1))"), base="I1-3"),
+    M("benign-G6-3-constructor-pointer", ["C05", "C06", "C09", "C10", "C17"], base="G6-3", benign=True),
+    M("G6-3-constructors-swapped", ["C05"], (TK, "    if flag == \"s\" {\n        RankPair::Suited\n    } else {\n        RankPair::Ofsuit\n    }", "    if flag == \"s\" {\n        RankPair::Ofsuit\n    } else {\n        RankPair::Suited\n    }"), base="G6-3"),
+    M("G6-3-flag-letter", ["C05"], (TK, "    if flag == \"s\" {", "    if flag == \"o\" {"), base="G6-3"),
     M("benign-F3-3-computed-flush-weight", ["C01", "C07", "C08"], base="F3-3", benign=True),
     M("F3-3-unreversed", ["C01", "C07"], (MH, "1 << (12 - u8::from(card.rank()))", "1 << u8::from(card.rank())"), base="F3-3"),
     M("F3-3-off-by-one", ["C01", "C07"], (MH, "1 << (12 - u8::from(card.rank()))", "1 << (13 - u8::from(card.rank()))"), base="F3-3"),
